@@ -11,6 +11,8 @@ type Pred interface {
 	// mapPolys rebuilds the predicate with every polynomial replaced (and re-simplified).
 	mapPolys(f func(*Poly) *Poly) Pred
 	smt(q *big.Int, vn func(int) string) string
+	// smtRaw renders the predicate over the raw (unsimplified) terms where the atom has them.
+	smtRaw(q *big.Int, em *rawEmitter, vars map[int]bool) string
 	eval(asg map[int]*big.Int, q *big.Int) bool
 	key() string
 	vars(into map[int]bool)
@@ -19,8 +21,11 @@ type Pred interface {
 type (
 	pTrue  struct{}
 	pFalse struct{}
-	// pEqZ: poly ≡ 0 (mod q)
-	pEqZ struct{ p *Poly }
+	// pEqZ: poly ≡ 0 (mod q); ra, rb (optional) are the raw terms whose equality it states
+	pEqZ struct {
+		p      *Poly
+		ra, rb *node
+	}
 	// pLE: (a mod q) <= (b mod q) as integers in [0,q)
 	pLE struct{ a, b *Poly }
 	// pOdd: (a mod q) is odd
@@ -39,7 +44,13 @@ func modTerm(p *Poly, q *big.Int, vn func(int) string) string {
 
 func (pTrue) mapPolys(func(*Poly) *Poly) Pred  { return pTrue{} }
 func (pFalse) mapPolys(func(*Poly) *Poly) Pred { return pFalse{} }
-func (e pEqZ) mapPolys(f func(*Poly) *Poly) Pred { return simplifyEqZ(f(e.p)) }
+func (e pEqZ) mapPolys(f func(*Poly) *Poly) Pred {
+	np := f(e.p)
+	if np == e.p {
+		return e
+	}
+	return simplifyEqZ(np)
+}
 func (e pLE) mapPolys(f func(*Poly) *Poly) Pred  { return pLEof(f(e.a), f(e.b)) }
 func (e pOdd) mapPolys(f func(*Poly) *Poly) Pred {
 	a := f(e.a)
@@ -62,6 +73,49 @@ func (c pOr) mapPolys(f func(*Poly) *Poly) Pred {
 		xs[i] = x.mapPolys(f)
 	}
 	return Or(xs...)
+}
+
+func (pTrue) smtRaw(*big.Int, *rawEmitter, map[int]bool) string  { return "true" }
+func (pFalse) smtRaw(*big.Int, *rawEmitter, map[int]bool) string { return "false" }
+func (e pEqZ) smtRaw(q *big.Int, em *rawEmitter, vars map[int]bool) string {
+	if e.ra == nil || e.rb == nil {
+		e.p.varSet(vars)
+		return e.smt(q, em.vn)
+	}
+	a, b := em.emit(e.ra), em.emit(e.rb)
+	return "(= (mod (- " + a + " " + b + ") " + q.String() + ") 0)"
+}
+func (e pLE) smtRaw(q *big.Int, em *rawEmitter, vars map[int]bool) string {
+	e.a.varSet(vars)
+	e.b.varSet(vars)
+	return e.smt(q, em.vn)
+}
+func (e pOdd) smtRaw(q *big.Int, em *rawEmitter, vars map[int]bool) string {
+	e.a.varSet(vars)
+	return e.smt(q, em.vn)
+}
+func (n pNot) smtRaw(q *big.Int, em *rawEmitter, vars map[int]bool) string {
+	return "(not " + n.x.smtRaw(q, em, vars) + ")"
+}
+func (c pAnd) smtRaw(q *big.Int, em *rawEmitter, vars map[int]bool) string {
+	if len(c.xs) == 0 {
+		return "true"
+	}
+	parts := make([]string, len(c.xs))
+	for i, x := range c.xs {
+		parts[i] = x.smtRaw(q, em, vars)
+	}
+	return "(and " + strings.Join(parts, " ") + ")"
+}
+func (c pOr) smtRaw(q *big.Int, em *rawEmitter, vars map[int]bool) string {
+	if len(c.xs) == 0 {
+		return "false"
+	}
+	parts := make([]string, len(c.xs))
+	for i, x := range c.xs {
+		parts[i] = x.smtRaw(q, em, vars)
+	}
+	return "(or " + strings.Join(parts, " ") + ")"
 }
 
 func (pTrue) smt(*big.Int, func(int) string) string     { return "true" }
@@ -164,20 +218,25 @@ func Bool(b bool) Pred {
 // simplifyEqZ builds the predicate p ≡ 0 (mod q). GF(q) is an integral domain (q prime), so a
 // variable dividing every monomial is split off: x·r ≡ 0 ⇔ x ≡ 0 ∨ r ≡ 0. Without this rewrite
 // the solver, which does not know that q is prime, cannot refute e.g. t·δ ≡ 0 from t ≢ 0, δ ≢ 0.
-func simplifyEqZ(p *Poly) Pred {
+func simplifyEqZ(p *Poly) Pred { return eqZRaw(p, nil, nil) }
+
+// eqZRaw is simplifyEqZ keeping the raw terms of both sides. Note that a predicate whose normal
+// form is constant is NOT folded when raw terms are present and keepRaw is requested by the caller
+// (see EqF/EqG): the raw form is what the solver re-checks.
+func eqZRaw(p *Poly, ra, rb *node) Pred {
 	if p.isConst() {
 		return Bool(p.constVal().Sign() == 0)
 	}
 	common, rest := p.commonFactor()
 	if len(common) == 0 {
-		return pEqZ{p}
+		return pEqZ{p: p, ra: ra, rb: rb}
 	}
 	var alts []Pred
 	seen := map[int]bool{}
 	for _, v := range common {
 		if !seen[v] {
 			seen[v] = true
-			alts = append(alts, pEqZ{polyVar(v)})
+			alts = append(alts, pEqZ{p: polyVar(v)})
 		}
 	}
 	if rest.isConst() {
@@ -191,13 +250,50 @@ func simplifyEqZ(p *Poly) Pred {
 }
 
 // EqF is a == b in the field.
-func EqF(a, b *F) Pred { return simplifyEqZ(a.p.sub(b.p, a.f.q)) }
+func EqF(a, b *F) Pred { return eqZRaw(a.p.sub(b.p, a.f.q), a.raw, b.raw) }
+
+// EqFKeep / EqGKeep are EqF / EqG for harness obligations: the atom keeps its raw terms even when
+// its normal form is a constant, so that the solver can re-check it in raw form.
+func EqFKeep(a, b *F) Pred { return keepRaw(a.p.sub(b.p, a.f.q), a.raw, b.raw) }
+
+// EqGKeep see EqFKeep.
+func EqGKeep(a, b *G) Pred { return keepRaw(a.p.sub(b.p, a.g.f.q), a.raw, b.raw) }
+
+func keepRaw(p *Poly, ra, rb *node) Pred {
+	if ra == nil || rb == nil {
+		return simplifyEqZ(p)
+	}
+	return pEqZ{p: p, ra: ra, rb: rb}
+}
+
+// fold simplifies atoms whose normal form is constant or factorisable (what EqF does eagerly).
+func fold(p Pred) Pred {
+	switch v := p.(type) {
+	case pEqZ:
+		return eqZRaw(v.p, v.ra, v.rb)
+	case pNot:
+		return Not(fold(v.x))
+	case pAnd:
+		xs := make([]Pred, len(v.xs))
+		for i, x := range v.xs {
+			xs[i] = fold(x)
+		}
+		return And(xs...)
+	case pOr:
+		xs := make([]Pred, len(v.xs))
+		for i, x := range v.xs {
+			xs[i] = fold(x)
+		}
+		return Or(xs...)
+	}
+	return p
+}
 
 // EqG is a == b in the group.
-func EqG(a, b *G) Pred { return simplifyEqZ(a.p.sub(b.p, a.g.f.q)) }
+func EqG(a, b *G) Pred { return eqZRaw(a.p.sub(b.p, a.g.f.q), a.raw, b.raw) }
 
 // IsZeroF is a == 0.
-func IsZeroF(a *F) Pred { return simplifyEqZ(a.p) }
+func IsZeroF(a *F) Pred { return eqZRaw(a.p, a.raw, rawConst(big.NewInt(0))) }
 
 // Not negates.
 func Not(x Pred) Pred {
